@@ -685,9 +685,24 @@ func c10R7(c *Ctx) {
 	// and the closure really uses that private value, not the caller's req
 	lookup := c.fobj(rule, "middleware/resolver.(*Resolver).lookup")
 	if lookup != nil {
-		for _, in := range instrsWhere(fn, isCallTo(lookup)) {
-			c.OriginCheck(rule, rule+"|groupLookup|lookup request argument", in, "r.lookup request", callArg(in, 3), nil,
-				CallTo(msgCopy), func(e *Expr) bool { return e.K == EParam && e.Name == "req" })
+		// the wire lookup may sit in the closure or in an unexported helper the closure
+		// hands its captured request to (scopeFuncs); a helper's own parameter is then
+		// resolved to what every one of its call sites passes.  The only parameter
+		// accepted as an origin is groupLookup's own req.
+		callerReq := func(e *Expr) bool {
+			p, ok := e.V.(*ssa.Parameter)
+			return ok && e.K == EParam && e.Name == "req" && p.Parent() == fn
+		}
+		for _, g := range scopeFuncs(fn) {
+			for _, b := range g.Blocks {
+				for _, in := range b.Instrs {
+					if !isCallTo(lookup)(in) {
+						continue
+					}
+					c.OriginCheckThroughCallers(rule, rule+"|groupLookup|lookup request argument", in, "r.lookup request", callArg(in, 3), nil,
+						CallTo(msgCopy), callerReq)
+				}
+			}
 		}
 	}
 	c.Floor(rule, 3)
